@@ -22,7 +22,7 @@ Theorem C04_dispatch_key_and_arguments_intact :
   forall n movable kread env evs,
     length env = n -> admissible n GenDisp.dispatch_shape evs ->
     key_seen (negb GenDisp.dispatch_key_copied) kread (run movable kread false env evs) = Some (map (fun i => nth i env MovedFrom) kread) /\
-    forall i, i < n -> plookup i (params (run movable kread false env evs)) = Some (nth i env MovedFrom).
+    forall i, i < n -> plookup i (params_seen GenDisp.dispatch_getevent_forwards_args movable kread (run movable kread false env evs)) = Some (nth i env MovedFrom).
 Proof.
   intros n movable kread env evs.
   exact (sequenced_site_intact n movable kread false GenDisp.dispatch_shape env evs
@@ -35,7 +35,7 @@ Theorem C04_dispatch_first_key_and_arguments_intact :
   forall n movable kread env evs,
     length env = n -> admissible n GenDisp.dispatch_first_shape evs ->
     key_seen (negb GenDisp.dispatch_first_key_copied) kread (run movable kread false env evs) = Some (map (fun i => nth i env MovedFrom) kread) /\
-    forall i, i < n -> plookup i (params (run movable kread false env evs)) = Some (nth i env MovedFrom).
+    forall i, i < n -> plookup i (params_seen GenDisp.dispatch_first_getevent_forwards_args movable kread (run movable kread false env evs)) = Some (nth i env MovedFrom).
 Proof.
   intros n movable kread env evs.
   exact (sequenced_site_intact n movable kread false GenDisp.dispatch_first_shape env evs
@@ -48,7 +48,8 @@ Theorem C04_enqueue_key_and_arguments_intact :
     length env = n ->
     (admissible n GenDisp.enqueue_shape evs \/ admissible n GenDisp.enqueue_first_shape evs) ->
     key (run movable kread false env evs) = Some (map (fun i => nth i env MovedFrom) kread) /\
-    forall i, i < n -> plookup i (params (run movable kread false env evs)) = Some (nth i env MovedFrom).
+    forall i, i < n -> plookup i (params_seen (GenDisp.enqueue_getevent_forwards_args || GenDisp.enqueue_first_getevent_forwards_args) movable kread
+                                              (run movable kread false env evs)) = Some (nth i env MovedFrom).
 Proof.
   intros n movable kread env evs Hl [H|H].
   - exact (sequenced_site_intact n movable kread false GenDisp.enqueue_shape env evs
@@ -64,6 +65,13 @@ Theorem C04_aliased_key_refuted :
   exists evs, admissible 1 GenDisp.Statement evs /\
               key_seen true [0] (run (fun _ => true) [0] false [Val 7] evs) = Some [MovedFrom].
 Proof. exact aliased_key_refuted. Qed.
+
+(* a getEvent that is handed the pack as rvalues lets a by-value policy move the listeners' arguments
+   away (seeded change C04b_getevent_gets_forwarded_args) *)
+Theorem C04_rvalue_getevent_refuted :
+  exists evs, admissible 1 GenDisp.Statement evs /\
+              plookup 0 (params_seen true (fun _ => true) [0] (run (fun _ => true) [0] false [Val 7] evs)) = Some MovedFrom.
+Proof. exact rvalue_getevent_refuted. Qed.
 
 (* regression witness (the defect repaired by 583643a): with key and forwarded arguments as
    siblings of one call, an admissible order reads the key from a moved-from argument *)
